@@ -35,3 +35,40 @@ Fixpoint dump_go (f : bytes) (evs : list frame_ev) (idx : N) (after before : N)
 
 Definition dump_segment (f : bytes) (base after before : N) : dump_res :=
   dump_go f (scan f) base after before [] [].
+
+(* ------------------------------------------------------------------ *)
+(* Filer.DumpLogs: listInternal maps segment ID -> base index from the file
+   names and visits the files in the order ListDir returns them, i.e. by file
+   name: 20 decimal digits of the base index, then 16 hex digits of the ID
+   (the variable is called segIDsSorted, but nothing sorts by ID).  A segment
+   whose successor starts at or below [after] is skipped, the walk ends at the
+   first segment starting at or above [before]; the first failing DumpSegment
+   ends it with that error.  Files: (id, base, content), one per ID. *)
+Definition name_le (x y : N * N * bytes) : bool :=
+  let '(ix, bx, _) := x in let '(iy, by_, _) := y in
+  (bx <? by_) || ((bx =? by_) && (ix <=? iy)).
+Fixpoint insert_by_name (x : N * N * bytes) (l : list (N * N * bytes)) : list (N * N * bytes) :=
+  match l with
+  | [] => [x]
+  | y :: r => if name_le x y then x :: l else y :: insert_by_name x r
+  end.
+Definition sort_by_name (l : list (N * N * bytes)) : list (N * N * bytes) :=
+  fold_right insert_by_name [] l.
+
+Fixpoint dump_logs_go (files : list (N * N * bytes)) (after before : N)
+         (acc : list (N * bytes)) : dump_res :=
+  match files with
+  | [] => DumpOk acc
+  | (_, base, f) :: r =>
+      let next_base := match r with (_, b, _) :: _ => b | [] => 0 end in
+      if (0 <? after) && (0 <? next_base) && (next_base <=? after) then dump_logs_go r after before acc
+      else if (0 <? before) && (before <=? base) then DumpOk acc
+      else match dump_segment f base after before with
+           | DumpOk es => dump_logs_go r after before (acc ++ es)
+           | DumpErr es => DumpErr (acc ++ es)
+           end
+  end.
+
+(* a *.wal name that does not parse makes listInternal fail before any file is read *)
+Definition dump_logs (badname : bool) (files : list (N * N * bytes)) (after before : N) : dump_res :=
+  if badname then DumpErr [] else dump_logs_go (sort_by_name files) after before [].
